@@ -117,6 +117,14 @@ func (rc *realController) UpgradeBatch(ctx *batchcontext.BatchContext) error {
 	current, _ := intstr.GetScaledValueFromIntOrPercent(&ctx.CurrentSurge, int(ctx.Replicas), true)
 
 	if current >= desired {
+		// the surge is already wide enough, but the workload webhook may have paused the Deployment
+		// in the meantime (the template was changed and changed back): resume it, or the batch
+		// never becomes ready
+		if rc.object.Spec.Paused {
+			patchData := patch.NewDeploymentPatch()
+			patchData.UpdatePaused(false)
+			return rc.client.Patch(context.TODO(), util.GetEmptyObjectWithKey(rc.object), patchData)
+		}
 		klog.Infof("No need to upgrade batch for deployment %v: because current %d >= desired %d", klog.KObj(rc.object), current, desired)
 		return nil
 	}
